@@ -10,6 +10,9 @@ CHECKS = {
  "C01": dict(engine="pipeline", cat="exploration", ref="3.1",
    text="Seeded histories of successful Muxer calls (payload lengths around every k*184 -/+ header/AF boundary and above 65535, every optional-header combination the writer supports, adaptation fields up to 'fills the packet' and 'leaves no room for the PES header', explicit/automatic PIDs, removal and re-adding) are muxed by the real Muxer, carried through a SimReader with a seeded short-read plan and reader kind, and demuxed by the real Demuxer; per PID the delivered PES sequence must equal the written one in payload bytes, stream id, header fields and first-packet adaptation field, tables must match every emission, no error anywhere; a third of the runs relay the parser's own structures into a second Muxer (cmd/astits-es-split topology). Sampling, not proof.",
    note="Trusted: MuxModel log of accepted units; normalisation list of parser-derived fields (lengths, stuffing). Conformant arguments only (see DESIGN 3.1 Scope)."),
+ "C02": dict(engine="refmux", cat="exploration", ref="3.2",
+   text="Random well-formed stream models (1..8 PIDs, PES bounded/unbounded, PSI units of 1..N sections over 1..6 packets, six table types) are packetised by an independent reference multiplexer with seeded split points (1..184, 1-byte first/last chunks), AF stuffing or trailing 0xFF, pointer fields and seeded interleaving, and read by the real Demuxer through a position-tracking reader: per PID the delivered sequence must equal the generated units (each once, in order, last unit before ErrNoMorePackets, no error) and a PAT/PMT must be returned with the reader positioned exactly at the end of its last packet, later sections of the unit needing no Read. A flagged sub-population carries spec-legal straddling sections (known finding K01/K02).",
+   note="Trusted: refts encoders/packetiser and the expected-output builder (written from ISO 13818-1 / EN 300 468). Scope: every section of a unit starts in the unit's first packet; PAT precedes PMT packets."),
  "C04": dict(engine="muxhist", cat="exploration", ref="3.4",
    text="Seeded Muxer call histories (valid and invalid arguments, all six API calls, retransmit periods 1..50) on the real Muxer over a recording writer; after every call an independent ISO 13818-1 decoder re-reads everything accepted so far: 188-byte alignment, sync byte, AF+payload=184, PUSI placement, PES start code / pointer field, returned n == bytes accepted, rejected calls write nothing. Sampling of an unbounded history space: evidence, not proof.",
    note="Trusted: the refts reference decoder and the MuxModel (written from the standard, constants learned from output); the recording writer never fails in this engine (writer faults are C18)."),
